@@ -18,7 +18,7 @@ CONSTANTS NameCat,    \* Seq([id, pre, preDitto, lines, nlen, b])
           MetaItems,  \* a few item sequences ...
           MetaAll,    \* ... combined with every well-formed metadata shape
           BadBases,   \* set of [mi, items] the corruptions are applied to
-          Damage,     \* set of corruptions [t, i, x]
+          Damage,     \* set of corruptions [t, i, x, pg] (pg: file size in pages, 0 = as laid out)
           PairBases   \* the bases that also get every pair of corruptions
 VARIABLES vec, cls, exp
 
@@ -62,6 +62,10 @@ Target(c, i, x) ==
       [] x = "beyond" -> c.size + 64
       [] x = "edge"   -> c.size - 8
       [] x = "last16" -> c.size - 16
+      \* the top of the uint32 range: -k stands for 2^32 - k (TLC integers are 32 bit signed; the harness writes the
+      \* two's complement).  off+8, off+12, off+16 wrap around to the first bytes of the file for these.
+      [] x = "top1"  -> -1  [] x = "top4"  -> -4  [] x = "top8" -> -8  [] x = "top9" -> -9
+      [] x = "top12" -> -12 [] x = "top16" -> -16 [] x = "top17" -> -17
 Applies(c, d) ==
     CASE d.t \in {"next", "nlen"} -> d.i \in DOMAIN c.recs
       [] d.t = "head"             -> d.i \in DOMAIN c.recs
@@ -95,10 +99,11 @@ Apply(c, d) ==
                                         !.recs[d.i].ok = (nl >= 1 /\ c.recs[d.i].off + RecHdr + nl <= c.size)]
       [] d.t = "swapheads" -> [c EXCEPT !.heads[1].b = c.heads[2].b, !.heads[2].b = c.heads[1].b]
       [] d.t = "none"   -> c
+Sized(c, d) == IF d.pg = 0 THEN c ELSE [c EXCEPT !.size = d.pg * Page]     \* the file is d.pg pages long (unused pages: zeros)
 Hurt(c) == [c EXCEPT !.fam = "damaged"]
 Fitting(c) == {d \in Damage : Applies(c, d)}
-Damaged  == UNION {{Apply(Hurt(Base(bb.mi, bb.items)), d) : d \in Fitting(Base(bb.mi, bb.items))} : bb \in BadBases}
-Twice(c) == UNION {{Apply(Apply(c, d1), d2) : d2 \in {d \in Fitting(Apply(c, d1)) : d.t # d1.t}} : d1 \in Fitting(c)}
+Damaged  == UNION {{Sized(Apply(Hurt(Base(bb.mi, bb.items)), d), d) : d \in Fitting(Base(bb.mi, bb.items))} : bb \in BadBases}
+Twice(c) == UNION {{Apply(Apply(c, d1), d2) : d2 \in {d \in Fitting(Apply(c, d1)) : d.t # d1.t /\ d.pg = 0}} : d1 \in {d \in Fitting(c) : d.pg = 0}}
 Damaged2 == UNION {Twice(Hurt(Base(bb.mi, bb.items))) : bb \in PairBases}
 Sound == {Base(mi, it) : mi \in WFMetas, it \in WFItems} \cup {Base(mi, it) : mi \in MetaAll, it \in MetaItems}
 
